@@ -244,7 +244,7 @@ impl TransportVisitor for V {
                 }
                 let j = decide(linear, posted, "which posted buffer the device uses (default: oldest)");
                 let lenc = match which {
-                    Which::VsockRx | Which::VsockRxLarge => decide(linear, 6, "written length (default: full)"),
+                    Which::VsockRx | Which::VsockRxLarge => decide(linear, 7, "written length (default: full)"),
                     Which::Sound => decide(linear, 4, "written length (default: full)"),
                     Which::Input => decide(linear, 2, "written length (default: full)"),
                 };
@@ -264,6 +264,13 @@ impl TransportVisitor for V {
                     }
                     (Which::VsockRx | Which::VsockRxLarge, 4) => {
                         bytes.truncate(7);
+                        true
+                    }
+                    // A complete header announcing a full body, of which only 10 bytes were
+                    // written: not a packet (nothing of it may reach the caller as one).
+                    (Which::VsockRx | Which::VsockRxLarge, 6) => {
+                        bytes = event_bytes(which, seq, 0);
+                        bytes.truncate(HDR_LEN + 10);
                         true
                     }
                     (Which::Sound, 1) => {
